@@ -422,7 +422,15 @@ class ConnGen:
             k = d.int(0, 6)
             if k == 0: args.append(['int', v])
             elif k == 1: args.append(['uint', v])
-            elif k == 2: args.append(['fixed', 0 if d.chance(0.3) else (v * 256 if d.chance(0.7) else v * 256 + 128)])
+            elif k == 2:
+                if d.chance(0.4):
+                    # large coordinates one fixed-point step (1/256) apart: distinct values however close they look
+                    big = d.choice([1073741952, 1073741953, 2147483646, 268435456, -2147483647, 1000 * 256 + 1])
+                    args.append(['fixed', big])
+                    if d.chance(0.6):
+                        args.append(['fixed', big + d.choice([1, -1])])
+                else:
+                    args.append(['fixed', 0 if d.chance(0.3) else (v * 256 if d.chance(0.7) else v * 256 + 128)])
             elif k == 3: args.append(['fd', v])
             elif k == 4: args.append(['str', str(v) if d.chance(0.7) else d.choice(['nil', '7.0', 'wl_x'])])
             elif k == 5:
